@@ -5,6 +5,7 @@
 package c04
 
 import (
+	"errors"
 	"bytes"
 	"encoding/binary"
 	"fmt"
@@ -407,9 +408,17 @@ func (g *gate) Write(h *rtp.Header, p []byte, a interceptor.Attributes) (int, er
 	g.mu.Lock()
 	ev.hdrX, ev.plX, ev.exit, ev.held = hx, px, true, held
 	ev.e1 = g.sc.clk.tick()
+	nth := len(g.evs)
 	g.mu.Unlock()
+	if k := g.sc.failEvery; k > 0 && nth%k == 0 {
+		// a transient error of the next writer on this one retransmission (it was written and is
+		// recorded); the other numbers of the NACK are independent requests
+		return 0, errNextWriter
+	}
 	return h.MarshalSize() + len(p), nil
 }
+
+var errNextWriter = errors.New("verif: next writer fails this retransmission")
 
 // ---------------------------------------------------------------------------------
 // requests
